@@ -83,6 +83,21 @@ def units():
         us.append(mk("multiply2", ["shift_left_in_word<1>", "compare", "subtract"], ("< " + M(n) + ")", "< " + M(n) + " - 1)")))
         us.append(mk("negate", ["is_zero", "copy<%d>" % n, "subtract"], ("< " + M(n) + ")", "< " + M(n) + " - 1)")))
         us.append(mk("reduce", ["compare", "copy<%d>" % n, "subtract"], ("+ " + M(n) + " == OLD", "+ " + M(n) + " + 1 == OLD")))
+        # the field's predicates (one-line forwarders to BigInt, treated as abstract decisions by every unit above this layer); only the instances the
+        # library instantiates exist in the AST
+        eqc = req(fresh("b"), "__CPROVER_pointer_equals(a, b) || " + fresh("a")) + assigns() + ens("__CPROVER_return_value == (%s == %s)" % (V(n, "a"), V(n, "b")))
+        izc = req(fresh("self")) + assigns() + ens("__CPROVER_return_value == (%s == 0)" % V(n, "self"))
+        import bvspec as _bs
+        mont_one = _bs.lit(pow(2, n, {384: _bs.Q, 256: _bs.R}[n]), n // 64, "uv%d" % n)          # the Montgomery form of 1: R mod p
+        ioc = req(fresh("self")) + assigns() + ens("__CPROVER_return_value == (%s == JPV_MONT_ONE)" % V(n, "self"))
+        for t, c_, uses_, can in (("equal", eqc, {BI.B(n) + "::equal": BI.c_equal(n)}, ("== (", "!= (")), ("is_zero", izc, {BI.B(n) + "::is_zero": BI.c_is_zero(n)}, ("== 0)", "== 1)")),
+                                  ("is_one", ioc, {BI.B(n) + "::equal": BI.c_equal(n)}, ("== JPV_MONT_ONE", "== 1 + JPV_MONT_ONE"))):
+            q_ = FP[n] + "::" + t
+            u_ = BVUnit(q_, dict({q_: c_}, **uses_), P + ["C04", "C05"], replace=list(uses_), unwind=W + 2, tier=tier, canary=can,
+                        note="predicate forwarder: its truth value is what the RING / GROUP units branch on")
+            u_.optional = True          # skipped when the working tree does not instantiate it
+            u_.spec_prelude = "#define JPV_MONT_ONE %s\n" % mont_one
+            us.append(u_)
         # Fp wrappers bind p to the library constant: the replaced callee's precondition VAL(p)==SPEC_MOD
         # becomes an obligation on the real constant
         for t in ("add", "subtract", "multiply2", "negate"):
